@@ -188,17 +188,17 @@ var skipStores map[string]bool
 // apFlag reports whether the subject transaction touches an actively persisted store.
 func apFlag(c *Case, tx *Txn) int {
 	for _, sp := range c.Stores {
-		if sp.ValueMode == 2 {
+		if sp.ValueMode == 2 || sp.ValueMode == 4 {
 			return 1
 		}
 	}
 	for _, idx := range tx.Create {
-		if c.Stores[idx].ValueMode == 2 {
+		if c.Stores[idx].ValueMode == 2 || c.Stores[idx].ValueMode == 4 {
 			return 1
 		}
 	}
 	for _, op := range tx.Ops {
-		if c.Stores[op.S].ValueMode == 2 {
+		if c.Stores[op.S].ValueMode == 2 || c.Stores[op.S].ValueMode == 4 {
 			return 1
 		}
 	}
